@@ -596,12 +596,12 @@ theorem step_pickRR (s : St) (hne : s.refs.length ≠ 0) (call : Nat) (loc : Loc
   · rename_i he
     have : s.refs = [] := by simpa using he
     rw [this] at hne; exact absurd rfl hne
-  · have hslot : (s.rr + 1) % 2 ^ 32 % s.refs.length < s.refs.length := Nat.mod_lt _ (Nat.pos_of_ne_zero hne)
+  · have hslot : (s.rr + 1) % 2 ^ 64 % s.refs.length < s.refs.length := Nat.mod_lt _ (Nat.pos_of_ne_zero hne)
     simp only
     split
-    · have hf := step_finishPick { s with rr := (s.rr + 1) % 2 ^ 32 } (some ((s.rr + 1) % 2 ^ 32 % s.refs.length)) [] noRes_nil
+    · have hf := step_finishPick { s with rr := (s.rr + 1) % 2 ^ 64 } (some ((s.rr + 1) % 2 ^ 64 % s.refs.length)) [] noRes_nil
         call .bind loc "" ctx dl (fun slot hx => by simp only [Option.some.injEq] at hx; subst hx; exact hslot)
-      exact ⟨(step_of_same (s := s) (s' := { s with rr := (s.rr + 1) % 2 ^ 32 }) ⟨rfl, rfl, rfl, rfl, rfl, rfl, rfl⟩).trans hf.1, hf.2⟩
+      exact ⟨(step_of_same (s := s) (s' := { s with rr := (s.rr + 1) % 2 ^ 64 }) ⟨rfl, rfl, rfl, rfl, rfl, rfl, rfl⟩).trans hf.1, hf.2⟩
     · refine ⟨?_, by simp [noPanic]⟩
       constructor
       · exact Nat.le_refl _
